@@ -114,7 +114,17 @@ func runC13(c *core.Ctx, o Options) {
 				case chName == "listenErr":
 					// buffered with constant capacity >= 1, the send is followed by return, not in a loop that continues
 					okBuf := false
-					if mc, ok := an.CellValue(x.Chan).(*ssa.MakeChan); ok {
+					chv := x.Chan
+					if p, isP := chv.(*ssa.Parameter); isP {
+						// the accept loop as a function of its own: the channel is the argument at its only (go) call site
+						if a := argAtOnlySite(p, lib); a != nil {
+							chv = a
+							if ct, isCT := chv.(*ssa.ChangeType); isCT { // chan error → chan<- error
+								chv = ct.X
+							}
+						}
+					}
+					if mc, ok := an.CellValue(chv).(*ssa.MakeChan); ok {
 						if n, ok := an.ConstInt(mc.Size); ok && n >= 1 {
 							okBuf = true
 						}
@@ -187,10 +197,27 @@ func runC13(c *core.Ctx, o Options) {
 			}
 		})
 	}
+	// Z1 (condition variables): sync.Cond.Wait blocks until another goroutine signals; no context, closed channel or closed
+	// socket releases it, so a wait whose signal depends on traffic (a state change) never returns once the connection is gone
+	for _, fn := range lib {
+		an.AllInstrs(fn, func(in ssa.Instruction) {
+			call, ok := in.(*ssa.Call)
+			if !ok {
+				return
+			}
+			cal := an.StaticCallee(&call.Call)
+			if cal == nil || cal.Pkg == nil || cal.Pkg.Pkg.Path() != "sync" || an.NameOf(cal) != "Wait" || cal.Signature.Recv() == nil || !an.TypeIs(cal.Signature.Recv().Type(), "sync", "Cond") {
+				return
+			}
+			c.Ob("Z1", an.NameOf(fn), "wait on a condition variable", call.Pos()).Fail("%s waits on a sync.Cond: the end of a connection cancels contexts and closes channels, neither of which wakes a condition variable, so the caller (a send call, a callback) blocks for ever once nothing signals any more", an.NameOf(fn))
+		})
+	}
 	// ---- Z2 goroutine bodies
 	type body struct {
-		fn   *ssa.Function
-		kind string
+		fn      *ssa.Function
+		kind    string
+		spawner *ssa.Function
+		site    ssa.Instruction
 	}
 	var bodies []body
 	seenBody := map[*ssa.Function]bool{}
@@ -199,7 +226,7 @@ func runC13(c *core.Ctx, o Options) {
 			if g, ok := in.(*ssa.Go); ok {
 				if cal := an.StaticCallee(&g.Call); cal != nil && !seenBody[cal] {
 					seenBody[cal] = true
-					bodies = append(bodies, body{cal, "go in " + an.NameOf(fn)})
+					bodies = append(bodies, body{cal, "go in " + an.NameOf(fn), fn, in})
 				} else if cal == nil {
 					c.Ob("Z2", an.NameOf(fn), "go statement with a dynamic callee", g.Pos()).Unknown("cannot enumerate the goroutine body")
 				}
@@ -207,11 +234,11 @@ func runC13(c *core.Ctx, o Options) {
 			if call, ok := in.(*ssa.Call); ok && an.CalleeIs(&call.Call, "errgroup", "Group.Go") {
 				if cl := an.ClosureFn(call.Call.Args[1]); cl != nil && !seenBody[cl] {
 					seenBody[cl] = true
-					bodies = append(bodies, body{cl, "eg.Go in " + an.NameOf(fn)})
+					bodies = append(bodies, body{cl, "eg.Go in " + an.NameOf(fn), fn, in})
 				} else if bound, ok := call.Call.Args[1].(*ssa.MakeClosure); ok {
 					if bf, ok := bound.Fn.(*ssa.Function); ok && !seenBody[bf] {
 						seenBody[bf] = true
-						bodies = append(bodies, body{bf, "eg.Go in " + an.NameOf(fn)})
+						bodies = append(bodies, body{bf, "eg.Go in " + an.NameOf(fn), fn, in})
 					}
 				}
 			}
@@ -238,6 +265,13 @@ func runC13(c *core.Ctx, o Options) {
 				why := loopExit(f, lp)
 				if why != "" {
 					ob.Ok("%s", why)
+					// an exit through the error of Accept is governed by cancellation only if the function that started the goroutine
+					// closes the listener whenever it returns
+					if strings.Contains(why, "blocking Accept") && f == b.fn {
+						bad := listenerNotClosed(b.spawner, b.site)
+						c.Check(bad == "", "Z2", an.NameOf(b.spawner), "the listener the accept goroutine blocks on is closed on every return", b.site.Pos(), "defer listener.Close()",
+							bad+": the accept goroutine has no other exit than an error of Accept, so it stays blocked after the acceptor has been closed, the port stays bound and later clients are still accepted and dropped")
+					}
 				} else {
 					ob.Fail("no exit of this loop is governed by a context's Done(), a closed-channel test or an error of a blocking call: the goroutine (%s) can outlive the connection", b.kind)
 				}
@@ -288,6 +322,20 @@ func runC13(c *core.Ctx, o Options) {
 		}
 		for _, fn := range lib {
 			an.AllInstrs(fn, func(in ssa.Instruction) {
+				// a bare wait `<-ctx.Done()` (a watcher goroutine) is subject to the same rule as a select case
+				if u, isU := in.(*ssa.UnOp); isU && u.Op == token.ARROW && doneContext(u.X) != "" && perConn[fn] {
+					if call, isC := u.X.(*ssa.Call); isC {
+						wide := ""
+						for _, o := range ctxOrigins(call.Call.Value, lib, 0, map[ssa.Value]bool{}) {
+							if o == "param:(*Acceptor).serve" || o == "field:Acceptor" {
+								wide = o
+							}
+						}
+						if wide != "" {
+							c.Ob("Z2", an.NameOf(fn), "a per-connection goroutine watches the connection's own context", u.Pos()).Fail("%s waits for %s.Done(), which (at one of its call sites) is the acceptor-wide context (%s), not the context of the connection: after the connection has ended the goroutine stays until the acceptor is closed", an.NameOf(fn), an.Render(call.Call.Value), wide)
+						}
+					}
+				}
 				sel, ok := in.(*ssa.Select)
 				if !ok {
 					return
@@ -345,29 +393,7 @@ func runC13(c *core.Ctx, o Options) {
 	// Z8: no function of the library returns with a mutex it has taken still locked (an early return past an explicit Unlock):
 	// every later Send, Stop or state read would block for ever
 	{
-		nLock := 0
-		for _, fn := range libFuncs(c) {
-			takes := false
-			an.AllInstrs(fn, func(in ssa.Instruction) {
-				if cc := an.CallOf(in); cc != nil {
-					if _, op, ok := an.LockOp(cc); ok && (op == "Lock" || op == "RLock") {
-						takes = true
-					}
-				}
-			})
-			if !takes {
-				continue
-			}
-			nLock++
-			held := an.HeldAtReturn(fn)
-			ob := c.Ob("Z8", an.NameOf(fn), "every mutex taken is released on every return", fn.Pos())
-			if len(held) == 0 {
-				ob.Ok("balanced on every returning path")
-			} else {
-				k := an.SortedKeys(held)[0]
-				ob.Fail("%s returns with %s still locked under [%s]: the next caller that needs the mutex blocks for ever", an.NameOf(fn), k, held[k])
-			}
-		}
+		nLock := checkLocksReleased(c, "Z8", libFuncs(c), "the next caller that needs the mutex blocks for ever")
 		c.Check(nLock >= 15, "Z8", "", "locking functions found", token.NoPos, fmt.Sprint(nLock), fmt.Sprintf("only %d functions that take a mutex found", nLock))
 	}
 	c.Explanation += " Z2 also: a select case on a context's Done() in anything that runs on behalf of one accepted connection watches a context derived in Acceptor.serve (or held by a per-connection object), not the acceptor-wide context serve was given — followed through helper parameters to all call sites. Z8: no function returns with a mutex it has taken still locked (every returning path is replayed over the lock operations, deferred unlocks included)."
@@ -404,7 +430,9 @@ func runC13(c *core.Ctx, o Options) {
 		c.Check(nCancel >= 5, "Z7", "", "calls of stored cancel functions found", token.NoPos, fmt.Sprint(nCancel), fmt.Sprintf("only %d calls of stored context.CancelFunc fields found", nCancel))
 	}
 	c.Explanation += " Z7 also: no stored context.CancelFunc is called while DefaultHandler.mu / Session.mu (held by a sender waiting in sendRaw) is held; the event subscribers and Session.LogonHandler are called with no mutex of the session held."
-	c.RuleMin = map[string]int{"Z1": 5, "Z2": 16, "Z3": 5, "Z4": 6, "Z5": 4, "Z6": 4, "Z7": 4, "Z8": 15}
+	c.Explanation += " Z2 also: a goroutine whose only loop exit is an error of Accept requires the function that started it to close the listener (directly, deferred, or through a module function) on every returning path after the go statement."
+	c.Explanation += " Z1 also: no wait on a sync.Cond anywhere in the library. Z2 scope also covers bare waits on Done() and follows the context parameter of exported constructors to their call sites inside the library."
+	c.RuleMin = map[string]int{"Z1": 5, "Z2": 17, "Z3": 5, "Z4": 6, "Z5": 4, "Z6": 4, "Z7": 4, "Z8": 15}
 	c.MinObl = 45
 }
 
@@ -1319,6 +1347,25 @@ func ctxOrigins(v ssa.Value, lib []*ssa.Function, depth int, seen map[ssa.Value]
 				return out
 			}
 		}
+		// an exported function of the module (a constructor called by Acceptor.serve): callers outside the library are unknown,
+		// the ones inside it are followed as well
+		if fn.Pkg != nil && strings.HasPrefix(fn.Pkg.Pkg.Path(), core.ModPath) && depth < 4 {
+			idx := -1
+			for i, p := range fn.Params {
+				if p == x {
+					idx = i
+				}
+			}
+			out := []string{"param:" + fnLabel(fn)}
+			for _, caller := range lib {
+				an.AllInstrs(caller, func(in ssa.Instruction) {
+					if cc := an.CallOf(in); cc != nil && an.StaticCallee(cc) == fn && idx >= 0 && idx < len(cc.Args) {
+						out = append(out, ctxOrigins(cc.Args[idx], lib, depth+1, seen)...)
+					}
+				})
+			}
+			return out
+		}
 		return []string{"param:" + fnLabel(fn)}
 	}
 	return []string{"unknown"}
@@ -1341,4 +1388,83 @@ func fnLabel(fn *ssa.Function) string {
 		}
 	}
 	return an.NameOf(fn)
+}
+
+// listenerNotClosed: on some returning path of fn that passes the go statement, no Close of a net.Listener has been called or
+// deferred (directly or through a module function that does it). Returns "" when every such path closes the listener.
+func listenerNotClosed(fn *ssa.Function, site ssa.Instruction) string {
+	var closes func(cc *ssa.CallCommon, depth int) bool
+	closes = func(cc *ssa.CallCommon, depth int) bool {
+		if cc.IsInvoke() && cc.Method.Name() == "Close" && an.TypeIs(cc.Value.Type(), "net", "Listener") {
+			return true
+		}
+		cal := an.StaticCallee(cc)
+		if cal == nil || depth > 2 || cal.Pkg == nil || !strings.HasPrefix(cal.Pkg.Pkg.Path(), core.ModPath) {
+			return false
+		}
+		found := false
+		an.AllInstrs(cal, func(in ssa.Instruction) {
+			if c2 := an.CallOf(in); c2 != nil {
+				if _, isGo := in.(*ssa.Go); !isGo && closes(c2, depth+1) {
+					found = true
+				}
+			}
+		})
+		return found
+	}
+	paths, _ := an.EnumPaths(fn, 4096)
+	n := 0
+	for _, p := range paths {
+		if p.Return == nil || !p.Passes(site) {
+			continue
+		}
+		n++
+		ok := false
+		for _, in := range p.InstrSeq() {
+			switch x := in.(type) {
+			case *ssa.Defer:
+				if closes(&x.Call, 0) {
+					ok = true
+				}
+			case *ssa.Call:
+				if closes(&x.Call, 0) {
+					ok = true
+				}
+			}
+		}
+		if !ok {
+			return an.NameOf(fn) + " returns under [" + p.CondString() + "] without closing the listener"
+		}
+	}
+	if n == 0 {
+		return "no returning path of " + an.NameOf(fn) + " passes the go statement"
+	}
+	return ""
+}
+
+// argAtOnlySite: the argument bound to parameter p at the only call, go or defer site of p's function inside fns (nil otherwise).
+func argAtOnlySite(p *ssa.Parameter, fns []*ssa.Function) ssa.Value {
+	fn := p.Parent()
+	idx := -1
+	for i, q := range fn.Params {
+		if q == p {
+			idx = i
+		}
+	}
+	var arg ssa.Value
+	n := 0
+	for _, g := range fns {
+		an.AllInstrs(g, func(in ssa.Instruction) {
+			cc := an.CallOf(in)
+			if cc == nil || an.StaticCallee(cc) != fn || idx < 0 || idx >= len(cc.Args) {
+				return
+			}
+			n++
+			arg = cc.Args[idx]
+		})
+	}
+	if n != 1 {
+		return nil
+	}
+	return arg
 }
